@@ -60,6 +60,9 @@ def install_hook(ctx):
         # only the entry touched by this call can be new; check it (cheap) and a sample
         key = expression.replace(' ', '')
         ent = self.cache.get(key)
+        if ent is not None and not hasattr(ent, 'variables_used'):
+            HOOK['foreign_cache_entries'] = HOOK.get('foreign_cache_entries', 0) + 1    # not ours to judge; never disturb the call
+            ent = None
         if ent is not None:
             for nm in ('variables_used', 'functions_used', 'suffixes_used'):
                 if getattr(ent, nm) is getattr(self, nm):
@@ -144,10 +147,11 @@ def scopes():
     fa = dict(DEFAULT_FUNCTIONS)
     fa['f'] = lambda a, b: a + 2 * b
     va = dict(DEFAULT_VARIABLES)
-    va.update({'x': 2.0, 'y': 3.0, 'f': 1.5, 'depthvar': 1.0, 'k': 5.0})
+    from mitxgraders.helpers.calc import MathArray
+    va.update({'x': 2.0, 'y': 3.0, 'f': 1.5, 'depthvar': 1.0, 'k': 5.0, 'vv': MathArray([1.0, 2.0])})
     A = (va, fa, {'%': 0.01, 'k': 1000.0})
     vb = dict(DEFAULT_VARIABLES)
-    vb.update({'x': -1.0, 'y': 0.0, 'undefinedvar': 4.0})
+    vb.update({'x': -1.0, 'y': 0.0, 'undefinedvar': 4.0, 'vv': 2.0})
     fb = dict(DEFAULT_FUNCTIONS)
     fb['zork'] = lambda a: a
     B = (vb, fb, {'%': 0.01})
@@ -159,6 +163,8 @@ ALPHABET = [
     'x+y*2', 'x + y*2', 'x+\ty*2', 'sin(x)+f(y,2k)', 'f+f(x,f)', '(x+y', 'x+*y',
     'zork(x)+ * 2k', 'undefinedvar+x', DEEP, '[x,y]*[1,2]+3%', '  ',
     'x1+y', 'x\t1+y',      # a tab inside a name is significant: the second string is outside the grammar
+    '[vv,vv]+0*[vv,vv]',   # vv is a vector in scope A (the literal is a matrix) and a number in scope B (a vector)
+    'x +* y', 'zork(x)+*2k',   # blank variants of malformed strings above: every message quotes the caller's own spelling
 ]
 
 
@@ -260,6 +266,12 @@ def run_random_histories(ctx):
         made = c03.make_invalid(rng, toks)
         if made:
             pool.append(made[1])
+            spaced = made[1].replace('*', ' * ').replace('+', ' +').replace(')', ') ')
+            if spaced != made[1] and rng.random() < 0.5:
+                pool.append(spaced)       # same cache key, different spelling
+        if rng.random() < 0.3:
+            # array literals of names whose dimension depends on the scope
+            pool.append(rng.choice(['[vv,vv]', '2*[vv,x]', '[vv,vv]+[vv,vv]', '[[vv,vv],[vv,vv]]', '[vv, vv]*2']))
     baseline = {}
     from mitxgraders import SumGrader, FormulaGrader
     for i in range(ctx.n(320, 6000)):
@@ -386,4 +398,5 @@ def run(ctx):
         return
     run_random_histories(ctx)
     ctx.count('hook_calls', HOOK['calls'])
+    ctx.count('hook_cache_entries_of_unknown_kind', HOOK.get('foreign_cache_entries', 0))
     lib.repo_tests_under_monitor(ctx, 'C10', ['parse'])
